@@ -25,7 +25,10 @@ GRIDS = {
     "D1": (1, ("0",) + M.ALL_TYPES, 3, 4),
     "D6": (6, ("0", M.TAP, M.HOLD, M.TAIL), 1, 1),
     "E4": (4, ("0", M.TAP, M.ROLL, M.TAIL), 1, 2),
+    # rows on different beats that lie inside one 1/48 tick (and a row exactly one tick later)
+    "T": (2, ("0", M.TAP, M.HOLD, M.TAIL), 3, 3),
 }
+CLOSE_BEATS = [Fraction(1), Fraction(97, 96), Fraction(49, 48), Fraction(197, 192)]
 
 
 def fmt_stream(stream):
@@ -255,7 +258,7 @@ def explore_shard(acc, shard):
         cols, alphabet, _, _ = GRIDS[grid]
         types = [a for a in alphabet if a != "0"]
         rows = N.grid_rows(cols, alphabet)
-        beats = BEATS[beat_off:] + [Fraction(12 + i) for i in range(4)]
+        beats = (CLOSE_BEATS if grid == "T" else BEATS[beat_off:]) + [Fraction(12 + i) for i in range(4)]
         layer = f"grid {grid}"
 
         def rec(prefix_rows):
